@@ -69,6 +69,12 @@ type PathResult struct {
 	NewQueries  int
 	MaxLoop     int
 	ForkSites   map[string]int
+	Cross       []CrossQuery
+}
+
+// CrossQuery is an assertion query kept as a standalone script for re-checking with other solvers.
+type CrossQuery struct {
+	Label, Script, Result string
 }
 
 // Observation is a harness-declared observable, used to validate engine paths natively.
@@ -585,6 +591,9 @@ func (r *Run) assertLabel(c *smt.Term, label string) {
 		return
 	}
 	res, m := r.check(r.allVars(), r.B.Not(c))
+	if r.E.Cfg.CrossCheck > 0 && r.S.Record != nil && res != smt.Unknown && r.E.wantCross() {
+		r.res.Cross = append(r.res.Cross, CrossQuery{Label: label, Script: r.S.Script(r.B.Not(c)), Result: res.String()})
+	}
 	switch res {
 	case smt.Unsat:
 		r.taken = append(r.taken, Decision{Kind: dkAssert, N: 3, Alt: 0})
